@@ -74,7 +74,7 @@ static const char* k_kind[] = { "random", "sin", "empty" };
 static const char* k_type[] = { "u8", "u16", "i8", "i16", "f32", "u10", "u12", "u14" };
 
 static struct { unsigned long cases, sets, rejected_sets, starts, frames, bytes, binned_cases, clamped, maxshape, reconfigs,
-                runs, triggers, trigger_runs, pending_at_stop, restarts_checked, restarts_without_set, timebound_checked, failed_frame_calls, ids_ahead_of_pacing; } C;
+                runs, triggers, trigger_runs, pending_at_stop, restarts_checked, restarts_without_set, live_sets, timebound_checked, failed_frame_calls, ids_ahead_of_pacing; } C;
 static vset g_sigs;
 
 // ---- C17 ------------------------------------------------------------------------------------------------
@@ -176,7 +176,15 @@ static void run_shape_case(uint64_t seed, unsigned long icase, uint64_t maxpx)
             if (camera_start(cam) != Device_Ok) { violation("start-failed", "camera_start failed"); break; }
             int nf = nbytes > (8u << 20) ? 2 : (int)vrng_range(&g, 1, 6);
             if (r == nruns - 1 && total_frames + nf < 6 && nbytes <= (8u << 20)) nf = 6 - total_frames;
+            int live_set_at = vrng_chance(&g, 1, 4) ? (int)vrng_below(&g, (uint64_t)nf) : -1;
             for (int f = 0; f < nf && !g_case_violated; ++f) {
+                if (f == live_set_at) {
+                    // "set" is also legal while the camera is running: the same settings again (the buffers are reallocated)
+                    struct CameraProperties q = req;
+                    vbuf_printf(&g_log, "live-set ");
+                    if (camera_set(cam, &q) != Device_Ok) violation("set-failed", "camera_set of the settings in effect failed while running");
+                    ++C.live_sets;
+                }
                 // exact-size block: one byte too many written by the camera is an ASan report
                 uint8_t* im = (uint8_t*)malloc(nbytes);
                 uint64_t pk = vmix(vmix(seed, icase), (uint64_t)(s * 64 + r * 8 + f));
@@ -358,6 +366,15 @@ static void run_stream_case(uint64_t seed, unsigned long icase)
         pthread_t ct, tt; struct trig_ctx tc = { &r, ntrig, r.seed, 0, paced };
         pthread_create(&ct, 0, consumer_main, &r);
         if (trig) pthread_create(&tt, 0, trigger_main, &tc);
+        if (vrng_chance(&g, 1, 5)) {
+            // the same settings (another exposure time only) are applied again while the camera is live, as a client that
+            // re-configures during an acquisition does: everything the property says about this run keeps holding
+            struct CameraProperties q = p; q.exposure_time_us = exp_us + (float)vrng_range(&g, 1, 40);
+            struct timespec ts = { 0, (long)vrng_range(&g, 0, 800000) }; nanosleep(&ts, 0);
+            vbuf_printf(&g_log, "live-set(exp=%gus) ", (double)q.exposure_time_us);
+            if (camera_set(cam, &q) != Device_Ok) violation("set-failed", "camera_set with unchanged shape and trigger mode failed while running");
+            ++C.live_sets;
+        }
         // the consumer either finishes (got what it wanted) or ends up blocked with all triggers used
         if (trig) pthread_join(tt, 0);
         int finished;
@@ -439,9 +456,9 @@ int main(int argc, char** argv)
     }
     printf("S {\"mode\":\"%s\",\"cases\":%lu,\"violations\":%lu,\"sets\":%lu,\"rejected_sets\":%lu,\"reconfigurations\":%lu,\"starts\":%lu,"
            "\"frames\":%lu,\"frame_bytes\":%lu,\"cases_with_binning\":%lu,\"clamped_requests\":%lu,\"max_shape_requests\":%lu,\"runs\":%lu,"
-           "\"triggers\":%lu,\"trigger_runs\":%lu,\"stops_with_pending_get_frame\":%lu,\"restart_checks\":%lu,\"restarts_without_set\":%lu,\"timebound_checks\":%lu,\"failed_frame_calls\":%lu,\"ids_ahead_of_pacing_info\":%lu,\"distinct\":%zu}\n",
+           "\"triggers\":%lu,\"trigger_runs\":%lu,\"stops_with_pending_get_frame\":%lu,\"restart_checks\":%lu,\"restarts_without_set\":%lu,\"live_sets\":%lu,\"timebound_checks\":%lu,\"failed_frame_calls\":%lu,\"ids_ahead_of_pacing_info\":%lu,\"distinct\":%zu}\n",
            mode, C.cases, g_nviol, C.sets, C.rejected_sets, C.reconfigs, C.starts, C.frames, C.bytes, C.binned_cases, C.clamped, C.maxshape,
-           C.runs, C.triggers, C.trigger_runs, C.pending_at_stop, C.restarts_checked, C.restarts_without_set, C.timebound_checked, C.failed_frame_calls, C.ids_ahead_of_pacing, g_sigs.n);
+           C.runs, C.triggers, C.trigger_runs, C.pending_at_stop, C.restarts_checked, C.restarts_without_set, C.live_sets, C.timebound_checked, C.failed_frame_calls, C.ids_ahead_of_pacing, g_sigs.n);
     const char* hp = getenv("VERIF_HASH_OUT");
     if (hp) vset_dump(&g_sigs, hp);
     fflush(stdout);
